@@ -664,12 +664,16 @@ def str_conversions(check: Check, repo: Repo, rule: str = "STR-TOTAL") -> None:
 
     check.rule(
         rule,
-        "two places where a value taken from the variables mapping is turned into text while an error message "
+        "conversions between text and numbers that CPython bounds at 4300 digits, on paths a request can reach. "
+        "Two places where a value taken from the variables mapping is turned into text while an error message "
         "is being built: (1) inspect() - repr() of an int can raise ValueError (CPython refuses to convert ints "
         "of more than 4300 digits), so the int arm of inspect_recursive converts inside a handler for ValueError; "
         "(2) suggestion_list(<name>, ...) lower-cases its first argument, so every call passes a value that is a "
         "str by type (mypy: builtins.str, e.g. the value of a NameNode) or under a dominating "
-        "isinstance(<name>, str) test - the keys of a dict given as an input object value are arbitrary",
+        "isinstance(<name>, str) test - the keys of a dict given as an input object value are arbitrary; (3) every "
+        "int(<text>) of the package (argument typed str by mypy) sits in a try that catches ValueError, or is the literal "
+        "coercer registered for a scalar (called under try/except Exception by every walker): a field name with a run of "
+        "5000 digits must not make validation raise (natural_comparison_key orders digit runs without converting them)",
     )
     fn = repo.func("pyutils.inspect", "inspect_recursive")
     reprs = []
@@ -720,6 +724,29 @@ def str_conversions(check: Check, repo: Repo, rule: str = "STR-TOTAL") -> None:
                      why if ok else f"`{unparse(a)}` is not known to be a str here ({ty or 'Any'}): a non-string key reaches .lower()")
     if n < 5:
         raise AnalysisError("STR-TOTAL: suggestion_list call sites not found")
+    # (3) text -> int: int(<str>) refuses more than 4300 digits (ValueError) just like repr(<int>) does
+    sm = repo.mod("type.scalars")
+    registered = {unparse(kw.value) for c in ast.walk(sm.tree) if isinstance(c, ast.Call) and call_name(c) == "GraphQLScalarType"
+                  for kw in c.keywords if kw.arg in ("coerce_input_literal", "parse_literal")}
+    k = 0
+    for mod in repo.modules.values():
+        if mod.name.endswith(".version"):
+            continue
+        for c in ast.walk(mod.tree):
+            if not (isinstance(c, ast.Call) and isinstance(c.func, ast.Name) and c.func.id == "int" and len(c.args) == 1):
+                continue
+            ty = mt.type_of(c.args[0]) or ""
+            if "builtins.str" not in top_heads(ty):
+                continue
+            k += 1
+            t = covered_by_try(c, {"ValueError", "Exception", "BaseException"})
+            fnn = qualname_of(c)
+            in_leaf = fnn in registered
+            check.ob(rule, c, f"{fnn}: {unparse(c)[:40]} of text", t is not None or in_leaf,
+                     (f"inside try/except (line {t.lineno})" if t is not None else "literal coercer of a scalar: every caller wraps it (LEAF-CALLBACK-WRAP)") if t is not None or in_leaf else
+                     "a run of more than 4300 digits raises ValueError here and nothing catches it")
+    if k < 2:
+        raise AnalysisError("STR-TOTAL: int(<text>) sites not found")
 
 
 SCHEMA_RAISE_ALLOWED = {
